@@ -314,7 +314,59 @@ def walk_ids(o, acc):
     return acc
 
 
+def theory_parameters(ctx):
+    """values reach every place of the THEORY where a prior was used: a scalar option, entries of a list-valued option (all of
+    them, some of them, with fixed numbers in between), with the other options fixed or fitted, priors shared or transformed"""
+    from holopy.scattering.theory import AberratedMieLens
+    rng = ctx.rng
+    for i in range(ctx.n(16, 120)):
+        k = i % 8
+        pa, pb, pl = Uniform(-3.0, 3.0, guess=0.5), Uniform(-6.0, 6.0, guess=-1.0), Uniform(0.5, 1.0, guess=0.8)
+        forms = [dict(spherical_aberration=[pa, 0.25, pb], lens_angle=0.8), dict(spherical_aberration=[pa, pb], lens_angle=pl),
+                 dict(spherical_aberration=[0.1, pa], lens_angle=0.8), dict(spherical_aberration=pa, lens_angle=0.8),
+                 dict(spherical_aberration=[pa, pa], lens_angle=0.8), dict(spherical_aberration=[0.3, 0.2], lens_angle=pl),
+                 dict(spherical_aberration=[2 * pa + 1, 0.2], lens_angle=0.8), dict(spherical_aberration=[pa, 0.25, pb], lens_angle=np.arcsin(Uniform(0.5, 0.9, guess=0.7)))]
+        kw = forms[k]
+        ctx.tried("theory-parameters", (k, i))
+        info = dict(kind="theory-parameters", form=k, theory="AberratedMieLens(%s)" % ", ".join("%s=%r" % kv for kv in kw.items()))
+        try:
+            sc = Sphere(n=1.59, r=Uniform(0.3, 0.7, guess=0.5), center=[0.5, 0.5, Uniform(3, 9, guess=5.0)])
+            model = AlphaModel(sc, alpha=Uniform(0.5, 1.0, guess=0.8), medium_index=1.33, illum_wavelen=0.66, illum_polarization=(1, 0), noise_sd=0.1,
+                               theory=AberratedMieLens(**kw))
+            names = model._parameter_names
+            vals = {nm: float(p.guess) + 0.013 * (j + 1) for j, (nm, p) in enumerate(zip(names, model._parameters))}
+            byid = {id(p): vals[nm] for nm, p in zip(names, model._parameters)}
+
+            def expect(o):
+                if isinstance(o, TransformedPrior):
+                    return o.transformation(*[expect(b) for b in o.base_prior])
+                if isinstance(o, Prior):
+                    # priors are deep-copied into the model: match by bounds and guess
+                    for nm, p in zip(names, model._parameters):
+                        if type(p) is type(o) and p.guess == o.guess and getattr(p, "lower_bound", None) == getattr(o, "lower_bound", None):
+                            return vals[nm]
+                    raise KeyError(o)
+                if isinstance(o, (list, tuple)):
+                    return [expect(v) for v in o]
+                return o
+            for form_name, arg in (("name-keyed", vals), ("list-ordered", [vals[nm] for nm in names])):
+                th = model.theory_from_parameters(arg)
+                for opt, given in kw.items():
+                    got = getattr(th, opt)
+                    want = expect(given)
+                    flat_got = np.ravel(np.asarray(got, dtype=object))
+                    if any(isinstance(v, Prior) for v in flat_got) or not np.allclose(np.asarray(got, dtype=float), np.asarray(want, dtype=float), rtol=0, atol=1e-15):
+                        ctx.violation("C11:theory-parameter:%s" % opt, "theory_from_parameters (%s values): the theory's %s is %r, the values of its priors give %r" % (form_name, opt, got, want),
+                                      dict(option=opt, values=form_name, **info))
+                        raise StopIteration
+        except StopIteration:
+            pass
+        except Exception as ex:
+            ctx.violation("C11:theory-parameters-raises:%s" % type(ex).__name__, "model over %s raised %r" % (info["theory"], ex), info)
+
+
 def search(ctx):
+    theory_parameters(ctx)
     rng = ctx.rng
     n = ctx.n(60, 600)
     # deterministic probe: a Model over a RigidCluster must honour its rotation/translation parameters
